@@ -591,6 +591,9 @@ def expand(case, run):
         sc["step"] = k
         sr = {"xdg": run["xdg"], "built": run["built"], "mig": res, "before": res["before"], "after": res["after"],
               "listing_before": res["listing_before"], "listing_after": res["listing_after"]}
+        if res.get("final") is not None and any(x["op"] == "sqlite" for x in case["session"][k + 1:]):
+            sr["final"] = res["final"]
+            sr["later"] = describe_steps({"session": case["session"][k + 1:]}, len(case["session"]))
         out.append((sc, sr))
     return out
 
@@ -638,6 +641,16 @@ def oracle(case, run):
         return bad
     new_b = dict((k, v) for k, v in m["buckets"])
     new_e = dict((k, v) for k, v in m["events"])
+    if run.get("final") is not None and run["final"] != {"buckets": m["buckets"], "events": m["events"]}:
+        # nothing was written through this store object after its construction: what it holds must still be
+        # exactly what the constructor left (the later constructions belong to other files)
+        fb = run["final"].get("buckets")
+        bad.append(("C14:store-changed-later", f"the store read again at the end of the process differs from what it held when "
+                                               f"its constructor returned: buckets {[k for k, _ in m['buckets']]} -> "
+                                               f"{fb if fb is None else [k for k, _ in fb]}, events "
+                                               f"{sum(len(v) for _, v in m['events'])} -> "
+                                               f"{None if fb is None else sum(len(v) for _, v in run['final']['events'])} "
+                                               f"{run.get('later', '')}"))
     if pre:
         # (a legacy file of this profile that no build step wrote was created empty by an earlier PeeweeStorage)
         dump = mine[0]["dump"] if mine else {"buckets": [], "events": []}
